@@ -73,6 +73,23 @@ def gen_cases(r):
             items.append(it); outlen += k
         cs.append(Case("rand-%d" % i, ",".join(items) or "-", "short-random", want_model=True,
                        pad=r.choice([0, 0, 0, 1, 2, 5])))
+    # A2: a TIE at the top of the adaptive tree: one symbol as heavy as all the others together (its leaf is a child of the root and
+    # has the same frequency as the root's other child), then that symbol again, then any other - and the same again and again
+    for i in range(12):
+        a_sym = r.choice([0x00, 0x20, 0x41, 0xff, r.randrange(256)])
+        a = r.choice([330, 400, 520, 700])
+        b = a - 312
+        others = [x for x in range(256) if x != a_sym]
+        items = ["L%02x" % a_sym] * a
+        for _ in range(b):
+            items.append("L%02x" % r.choice(others) if r.random() < 0.8 else "C%d.%d" % (r.randrange(64), r.randrange(3, 61)))
+        for _ in range(r.choice([1, 5, 60])):
+            items.append("L%02x" % a_sym)
+            items.append("L%02x" % r.choice(others) if r.random() < 0.8 else "C%d.%d" % (r.randrange(64), r.randrange(3, 61)))
+        for _ in range(r.choice([0, 30])):
+            it, k = rand_cmd(r, 5000)
+            items.append(it)
+        cs.append(Case("roottie-%d" % i, ",".join(items), "root-tie", want_model=True))
     # B: last command = copy in each of the 64 upper-distance classes, after 0..7 literals (all byte alignments
     #    of the final position code: the decoder peeks 8 bits there)
     for u in range(64):
@@ -283,7 +300,7 @@ def main():
             costs.append(min(declen, full))
             d_ops.append("lh1dec %d %s" % (declen, data.hex() or "-"))
         # the slow model gets at most MODEL_BUDGET bytes of output: the rebuild case first, then the small families
-        prio = ["first-use-after-rebuild", "ties", "all-symbols", "round-robin", "upper-class", "short-random"]
+        prio = ["root-tie", "first-use-after-rebuild", "ties", "all-symbols", "round-robin", "upper-class", "short-random"]
         for i in sorted((i for i, c in enumerate(cases) if c.want_model), key=lambda i: (prio.index(cases[i].family), i)):
             if costs[i] <= budget:
                 budget -= costs[i]
